@@ -120,3 +120,323 @@ def _mk_chop(n_len, tiers, timeout):
 for _n, _t, _to in [(1, ("quick", "thorough"), 30), (2, ("quick", "thorough"), 60), (3, ("quick", "thorough"), 120),
                     (4, ("thorough",), 400), (5, ("thorough",), 1500)]:
     _mk_chop(_n, _t, _to)
+
+
+# --- d. segment line shaping (S, xh) -------------------------------------------
+S1 = Style(bold=True)
+S2 = Style(italic=True)
+SP = Style(underline=True)
+_TAGS = [(S1, "1"), (S2, "2"), (SP, "P")]
+F_SEG = ["rich/segment.py:Segment.adjust_line_length", "rich/segment.py:Segment.split_and_crop_lines",
+         "rich/segment.py:Segment.split_lines", "rich/segment.py:Segment.set_shape", "rich/segment.py:Segment.simplify",
+         "rich/cells.py:set_cell_size", "rich/cells.py:cell_len"]
+
+
+def _tag(style) -> str:
+    if style is None:
+        return "0"
+    for st, t in _TAGS:
+        if style is st or style == st:
+            return t
+    return "?"
+
+
+def _flat(segments):
+    """(chars, tags) of the non-control segments, as two parallel strings."""
+    chars = ""
+    tags = ""
+    for seg in segments:
+        if seg.is_control:
+            continue
+        chars += seg.text
+        tags += _tag(seg.style) * len(seg.text)
+    return chars, tags
+
+
+def _line_ok(in_chars, in_tags, out_chars, out_tags, length, pad, pad_tag) -> bool:
+    """Specification of adjust_line_length on flattened (char, style-tag) strings."""
+    w_in = ref_width(in_chars)
+    if len(out_chars) != len(out_tags):
+        return False
+    if w_in < length:
+        if not pad:
+            return out_chars == in_chars and out_tags == in_tags
+        n = length - w_in
+        return out_chars == in_chars + " " * n and out_tags == in_tags + pad_tag * n
+    if w_in == length:
+        return out_chars == in_chars and out_tags == in_tags
+    # cropped: exact width, prefix of the input, optionally one space in the style of the cut character
+    if ref_width(out_chars) != length:
+        return False
+    k = len(out_chars)
+    if in_chars[:k] == out_chars and in_tags[:k] == out_tags:
+        return True
+    if k == 0 or k > len(in_chars):
+        return False
+    return (in_chars[:k - 1] == out_chars[:k - 1] and in_tags[:k] == out_tags and out_chars[k - 1] == " "
+            and in_chars[k - 1] == WIDE)
+
+
+def _mk_adjust(lens, tiers, timeout, with_control):
+    l0, l1, l2 = lens
+    maxw = 2 * (l0 + l1 + l2) + 1
+
+    def pre(t0: str, t1: str, t2: str, c1: bool, length: int, pad: bool) -> bool:
+        if not with_control and c1:
+            return False
+        return (len(t0) == l0 and len(t1) == l1 and len(t2) == l2 and over(t0, SIGMA) and over(t1, SIGMA)
+                and over(t2, SIGMA) and 0 <= length <= maxw)
+
+    @xh("C13-d-adjust_line_length-%d%d%d%s" % (l0, l1, l2, "-ctl" if with_control else ""), pre=pre, tiers=tiers,
+        timeout=timeout, kind="S", functions=F_SEG, stubs=["S1"],
+        bounds="3 segments with text lengths %r over Sigma, styles (bold, None, italic), middle segment control flag %s, "
+               "0<=length<=%d, pad symbolic, pad style underline" % (lens, "symbolic" if with_control else "False", maxw),
+        outside="more segments, longer texts; styles are opaque tags (A2)")
+    def h(t0: str, t1: str, t2: str, c1: bool, length: int, pad: bool) -> bool:
+        line = [Segment(t0, S1), Segment(t1, None, c1), Segment(t2, S2)]
+        out = Segment.adjust_line_length(line, length, style=SP, pad=pad)
+        ic, it = _flat(line)
+        oc, ot = _flat(out)
+        if not _line_ok(ic, it, oc, ot, length, pad, "P"):
+            return False
+        if pad or ref_width(ic) >= length:
+            return Segment.get_line_length(out) == length
+        return True
+    return h
+
+
+for _l in [(0, 0, 0), (1, 0, 0), (1, 1, 0), (2, 0, 0), (2, 1, 0), (1, 2, 0)]:
+    _mk_adjust(_l, ("quick", "thorough"), 300, False)
+for _l in [(1, 1, 0), (1, 1, 1)]:
+    _mk_adjust(_l, ("quick", "thorough"), 400, True)
+for _l in [(2, 2, 0)]:
+    _mk_adjust(_l, ("thorough",), 1500, False)
+for _l in [(2, 1, 1), (1, 2, 1), (1, 1, 2), (3, 1, 0)]:
+    _mk_adjust(_l, ("thorough",), 1500, True)
+
+
+def _split_ref(chars, tags):
+    """Split flattened strings at newlines -> list of (chars, tags); no trailing empty line."""
+    lines = []
+    cur_c = ""
+    cur_t = ""
+    for i in range(len(chars)):
+        if chars[i] == "\n":
+            lines.append((cur_c, cur_t))
+            cur_c = ""
+            cur_t = ""
+        else:
+            cur_c += chars[i]
+            cur_t += tags[i]
+    if cur_c:
+        lines.append((cur_c, cur_t))
+    return lines
+
+
+def _lines_match(want, got_lines, line_ok) -> bool:
+    """got may carry one extra final line for an empty remainder (Rich yields a line when the last segments are empty);
+    the property does not say which, so both are accepted - but that line must then be a correctly shaped empty line."""
+    if len(got_lines) == len(want) + 1:
+        want = want + [("", "")]
+    if len(got_lines) != len(want):
+        return False
+    for (wc, wt), line in zip(want, got_lines):
+        oc, ot = _flat(line)
+        if not line_ok(wc, wt, oc, ot):
+            return False
+    return True
+
+
+def _mk_split_crop(lens, tiers, timeout):
+    l0, l1 = lens
+
+    def pre(t0: str, t1: str, length: int, pad: bool) -> bool:
+        return (len(t0) == l0 and len(t1) == l1 and over(t0, SIGMA_NL) and over(t1, SIGMA_NL)
+                and 0 <= length <= 2 * (l0 + l1) + 1)
+
+    @xh("C13-d-split_and_crop_lines-%d%d" % lens, pre=pre, tiers=tiers, timeout=timeout, kind="S", functions=F_SEG,
+        stubs=["S1"],
+        bounds="2 segments (bold, italic), text lengths %r over Sigma+newline, 0<=length<=%d, pad symbolic, "
+               "requested pad style underline" % (lens, 2 * (l0 + l1) + 1))
+    def h(t0: str, t1: str, length: int, pad: bool) -> bool:
+        segs = [Segment(t0, S1), Segment(t1, S2)]
+        out = list(Segment.split_and_crop_lines(segs, length, style=SP, pad=pad, include_new_lines=False))
+        ic, it = _flat(segs)
+        want = _split_ref(ic, it)
+        return _lines_match(want, out, lambda wc, wt, oc, ot: _line_ok(wc, wt, oc, ot, length, pad, "P"))
+    return h
+
+
+for _l in [(0, 0), (1, 0), (0, 1), (1, 1), (2, 0), (2, 1), (1, 2)]:
+    _mk_split_crop(_l, ("quick", "thorough"), 150)
+for _l in [(2, 2), (3, 1), (1, 3), (3, 2)]:
+    _mk_split_crop(_l, ("thorough",), 1200)
+
+
+def _mk_split_lines(lens, tiers, timeout):
+    l0, l1 = lens
+
+    def pre(t0: str, t1: str, c1: bool) -> bool:
+        return len(t0) == l0 and len(t1) == l1 and over(t0, SIGMA_NL) and over(t1, SIGMA_NL)
+
+    @xh("C13-d-split_lines-%d%d" % lens, pre=pre, tiers=tiers, timeout=timeout, kind="S", functions=F_SEG, stubs=["S1"],
+        bounds="2 segments, text lengths %r over Sigma+newline, second segment control flag symbolic" % (lens,))
+    def h(t0: str, t1: str, c1: bool) -> bool:
+        segs = [Segment(t0, S1), Segment(t1, S2, c1)]
+        out = list(Segment.split_lines(segs))
+        ic, it = _flat(segs)
+        want = _split_ref(ic, it)
+        return _lines_match(want, out, lambda wc, wt, oc, ot: wc == oc and wt == ot)
+    return h
+
+
+for _l in [(0, 0), (1, 1), (2, 1), (1, 2), (2, 2)]:
+    _mk_split_lines(_l, ("quick", "thorough"), 150)
+for _l in [(3, 2), (2, 3), (3, 3)]:
+    _mk_split_lines(_l, ("thorough",), 1200)
+
+
+def _mk_simplify(tiers, timeout):
+    def pre(t0: str, t1: str, t2: str, same01: bool, same12: bool, c0: bool, c1: bool, c2: bool) -> bool:
+        return len(t0) <= 1 and len(t1) <= 1 and len(t2) <= 1 and over(t0, "a<") and over(t1, "a<") and over(t2, "a<")
+
+    @xh("C13-d-simplify", pre=pre, tiers=tiers, timeout=timeout, kind="S", functions=["rich/segment.py:Segment.simplify"],
+        bounds="3 segments, texts up to 1 char, equal/different neighbouring styles symbolic, control flags symbolic")
+    def h(t0: str, t1: str, t2: str, same01: bool, same12: bool, c0: bool, c1: bool, c2: bool) -> bool:
+        st0 = S1
+        st1 = S1 if same01 else S2
+        st2 = st1 if same12 else (SP if st1 is not SP else S1)
+        segs = [Segment(t0, st0, c0), Segment(t1, st1, c1), Segment(t2, st2, c2)]
+        out = list(Segment.simplify(segs))
+        # visible (char, style) sequence preserved, and control text never becomes visible text or vice versa
+        if _flat(out) != _flat(segs):
+            return False
+        ctl_in = "".join(s.text for s in segs if s.is_control)
+        ctl_out = "".join(s.text for s in out if s.is_control)
+        return ctl_in == ctl_out
+    return h
+
+
+_mk_simplify(("quick", "thorough"), 200)
+
+
+def _mk_set_shape(lens, tiers, timeout):
+    l0, l1 = lens
+
+    def pre(t0: str, t1: str, width: int, height: int) -> bool:
+        return (len(t0) == l0 and len(t1) == l1 and over(t0, SIGMA) and over(t1, SIGMA) and 0 <= width <= 5
+                and 1 <= height <= 3)
+
+    @xh("C13-d-set_shape-%d%d" % lens, pre=pre, tiers=tiers, timeout=timeout, kind="S", functions=F_SEG, stubs=["S1"],
+        bounds="2 lines of one segment each (text lengths %r over Sigma), 0<=width<=5, height None (coded 1) or 2..3" % (lens,))
+    def h(t0: str, t1: str, width: int, height: int) -> bool:
+        lines = [[Segment(t0, S1)], [Segment(t1, S2)]]
+        out = Segment.set_shape(lines, width, height if height >= 2 else None, style=SP)
+        want_h = height if height >= 2 else 2
+        if len(out) != want_h:
+            return False
+        for i, line in enumerate(out):
+            oc, ot = _flat(line)
+            if ref_width(oc) != width:
+                return False
+            if i < 2:
+                ic, it = _flat(lines[i])
+                if not _line_ok(ic, it, oc, ot, width, True, "P"):
+                    return False
+            elif oc != " " * width or ot != "P" * width:
+                return False
+        return True
+    return h
+
+
+for _l in [(0, 1), (1, 1)]:
+    _mk_set_shape(_l, ("quick", "thorough"), 200)
+for _l in [(2, 1), (2, 2)]:
+    _mk_set_shape(_l, ("thorough",), 1500)
+
+
+# --- e. cache transparency (P) ---------------------------------------------------
+from rich._lru_cache import LRUCache  # noqa: E402
+
+
+def _mk_cache(lens, tiers, timeout):
+    lk1, lk2, lt = lens
+
+    def pre(k1: str, k2: str, t: str, two: bool) -> bool:
+        return (len(k1) == lk1 and len(k2) == lk2 and len(t) == lt and over(k1, SIGMA) and over(k2, SIGMA)
+                and over(t, SIGMA))
+
+    @xh("C13-e-cell_len-cache-%d%d%d" % lens, pre=pre, tiers=tiers, timeout=timeout, kind="P",
+        functions=["rich/cells.py:cell_len", "rich/_lru_cache.py:LRUCache.__setitem__", "rich/_lru_cache.py:LRUCache.__getitem__"],
+        bounds="inductive step: any LRUCache(2) state with 1 or 2 entries (key lengths %d,%d over Sigma) satisfying "
+               "'value == reference width of key'; one measurement of a string of length %d" % lens,
+        outside="strings are hashed, so CrossHair enumerates them (kind P); longer keys; the real cache size 4096",
+        stubs=["the cache is passed explicitly as cell_len's _cache argument (the real memo is its default argument)"])
+    def h(k1: str, k2: str, t: str, two: bool) -> bool:
+        cache = LRUCache(2)
+        cache[k1] = ref_width(k1)
+        if two:
+            cache[k2] = ref_width(k2)
+        got = cells.cell_len(t, cache)
+        if got != ref_width(t):
+            return False
+        again = cells.cell_len(t, cache)
+        if again != got or len(cache) > 2:
+            return False
+        for k, v in cache.items():
+            if v != ref_width(k):
+                return False
+        return True
+    return h
+
+
+_mk_cache((1, 1, 1), ("quick", "thorough"), 300)
+_mk_cache((1, 2, 1), ("thorough",), 1500)
+_mk_cache((1, 1, 2), ("thorough",), 1500)
+
+
+def _mk_lru(nops, tiers, timeout):
+    @symx("C13-e-lrucache-%dops" % nops, tiers=tiers, timeout=timeout, kind="P",
+          functions=["rich/_lru_cache.py:LRUCache"],
+          bounds="all sequences of %d operations get/set on LRUCache(2) over 3 keys (operation kinds and keys solver-enumerated), "
+                 "values symbolic ints" % nops,
+          outside="longer histories; larger caches")
+    def h(e):
+        cache = LRUCache(2)
+        model = []  # list of (key, value), most recently used last
+        ok = True
+        for i in range(nops):
+            op = int(e.mk("op%d" % i, 0, 1))
+            k = int(e.mk("k%d" % i, 0, 2))
+            if op == 0:
+                v = e.mk("v%d" % i, 0, 9)
+                cache[k] = v
+                present = [j for j, (mk, _) in enumerate(model) if mk == k]
+                if present:
+                    model[present[0]] = (k, v)
+                else:
+                    if len(model) >= 2:
+                        model.pop(0)
+                    model.append((k, v))
+            else:
+                present = [j for j, (mk, _) in enumerate(model) if mk == k]
+                got = cache.get(k, None)
+                if present:
+                    ok = sym_and(ok, got == model[present[0]][1]) if got is not None else False
+                else:
+                    if got is not None:
+                        ok = False
+                if k in cache:
+                    _ = cache[k]  # __getitem__ refreshes recency
+                    if not present:
+                        ok = False
+                    else:
+                        model.append(model.pop(present[0]))
+            if len(cache) > 2 or sorted(cache.keys()) != sorted(mk for mk, _ in model):
+                ok = False
+        return ok
+    return h
+
+
+_mk_lru(3, ("quick", "thorough"), 300)
+_mk_lru(5, ("thorough",), 1500)
